@@ -8,6 +8,7 @@ that this is what the Go runtime provides, and data-race freedom, are assumption
 that clause is a stress run of G goroutines x K Close calls on the real client.
 -/
 import LA.Proofs.ClientOnce
+import LA.Proofs.StateFacts
 
 namespace LA.Client
 open LA.Netlink
@@ -306,3 +307,9 @@ example :
   decide
 
 end LA.Client
+
+/-! ### the code keeps nothing between calls that the model does not have -/
+
+/-- Outside `init`, no function of the root package writes a package-level variable, takes the address of one or calls a
+sync/atomic method on one (regenerated list, see LA.Proofs.StateFacts): all state is in the object the model is given. -/
+theorem C17_state_is_in_the_object : LA.StateFacts.ofPkg "" = [] := by decide
